@@ -37,6 +37,11 @@ def refusalOf : Asm.Stmt → Option String
     else none
   | _ => none
 
+/-- `AirStmt::RawWord { .. }` -/
+def isRawWord : Asm.Stmt → Bool
+  | .rawWord _ => true
+  | _ => false
+
 /-- `eval_inner` after parsing: refusal patterns, `AsmLine::new(asm_line, stmt, dummy)`,
 `backpatch`, `emit`, `execute`. -/
 def evalStmt (so mi : Bool) (tbl : Asm.SymTab) (asmLine : Nat) (m : Machine) (w : World)
@@ -44,9 +49,8 @@ def evalStmt (so mi : Bool) (tbl : Asm.SymTab) (asmLine : Nat) (m : Machine) (w 
   match refusalOf stmt with
   | some ident => .refused [ident.toList]
   | none =>
-    match stmt with
-    | .rawWord _ => .panic "unreachable: tried to simulate raw word"
-    | _ =>
+    if isRawWord stmt then .panic "unreachable: tried to simulate raw word"
+    else
       match Asm.AsmLine.backpatch tbl { line := asmLine, stmt := stmt, span := Asm.Span.dummy } with
       | none => .refused evalMsg                         -- "Label not found"
       | some a =>
